@@ -90,7 +90,7 @@ reg(part('memmem_reexport', 'src/memmem/mod.rs', 'memmem', only_items=['use crat
 P0 = ['prelude/vbase.vrs']
 BASE = ['ext', 'vector', 'generic_memchr']
 BUILDS = {
-    'main': dict(parts=BASE + ['all_mod', 'all_rabinkarp'], prelude=P0 + ['prelude/x_eqrk.vrs']),
+    'main': dict(parts=BASE + ['all_memchr', 'all_mod', 'all_rabinkarp'], prelude=P0 + ['prelude/x_eqrk.vrs']),
     # development builds (one per porting task; each may add its own prelude/x_<name>.vrs)
     'dev_generic': dict(parts=BASE, prelude=P0),
     'dev_eq': dict(parts=['ext', 'vector', 'all_mod'], prelude=P0),
